@@ -583,10 +583,14 @@ def discrete_SIR(G, test_transmission=_simple_test_transmission_, args=(), test_
                 node_history[node] = ([tmin], ['R'])
     
     N=G.order()
+    if initial_recovereds is not None:
+        nR0 = len(initial_recovereds)
+    else:
+        nR0 = 0
     t = [tmin]
-    S = [N-len(initial_infecteds)]
+    S = [N-len(initial_infecteds)-nR0]
     I = [len(initial_infecteds)]
-    R = [0]
+    R = [nR0]
     
     susceptible = defaultdict(lambda: True)  
     #above line is equivalent to u.susceptible=True for all nodes.
@@ -598,10 +602,10 @@ def discrete_SIR(G, test_transmission=_simple_test_transmission_, args=(), test_
             susceptible[u] = False
         
     infecteds = set(initial_infecteds)
-    totR= 0
+    totR= nR0
     nI = len(initial_infecteds)
-    nR = 0
-    nS = N - nI
+    nR = nR0
+    nS = N - nI - nR0
     
     while infecteds and t[-1]<tmax:
         new_infecteds = set()
@@ -2325,7 +2329,7 @@ def fast_nonMarkov_SIR(G, trans_time_fxn=None,
     if initial_recovereds is not None:
         for node in initial_recovereds:
             status[node] = 'R'
-            rec_time[node] = tmin-1 #default value for these.  Ensures that the recovered nodes appear with a time
+            rec_time[node] = tmin #Ensures that the recovered nodes appear with a time (and as 'R' from tmin on)
     pred_inf_time = defaultdict(lambda: float('Inf')) 
         #infection time defaults to \infty  --- this could be set to tmax, 
         #probably with a slight improvement to performance.
@@ -2342,7 +2346,11 @@ def fast_nonMarkov_SIR(G, trans_time_fxn=None,
         initial_infecteds=[initial_infecteds]
     #else it is assumed to be a list of nodes.
         
-    times, S, I, R= ([tmin], [G.order()], [0], [0])  
+    if initial_recovereds is not None:
+        nR0 = len(initial_recovereds)
+    else:
+        nR0 = 0
+    times, S, I, R= ([tmin], [G.order()-nR0], [0], [nR0])  
     transmissions = []
     
     for u in initial_infecteds:
